@@ -52,7 +52,8 @@ def run(chk):
                          "vertex, or is within 1e-3 size of an edge, or polygon clockwise / non-convex")
     cases, meta = [], []
     for _ in range(npoly):
-        kind, P = gen.simple_polygon(rng)
+        force_far = rng.random() < 0.25
+        kind, P = gen.simple_polygon(rng, kind="convex") if force_far else gen.simple_polygon(rng)
         if rng.random() < 0.5:
             P = P[::-1].copy()
         pts = query_points(rng, P, npts)
@@ -64,19 +65,25 @@ def run(chk):
             u = 2.0 ** int(rng.integers(-25, 9))
             P, pts = P * u, pts * u
             kind += "*2^k"
-        mode = rng.choice(["xy3", "xy2", "placed"])
+        mode = "placed" if force_far else rng.choice(["xy3", "xy2", "placed"])
         V3 = np.c_[P, np.zeros(len(P))]
         Q3 = np.c_[pts, np.zeros(len(pts))]
         if mode == "placed":
             M, n = gen.random_rotation(rng, integer=True)
             s = 2.0 ** int(rng.integers(-2, 3))
             t = gen.dy(rng.uniform(-5, 5, 3), 4) * u          # (the whole scenario is rescaled, the placement included)
+            if kind.startswith("convex") and (force_far or rng.random() < 0.6):
+                # far from the origin compared with its size (2^16 .. 2^26 sizes): all coordinates stay exactly representable.  Convex
+                # polygons through ConvexPolygon only (same is_inside): the general constructor's sweep line refuses valid far-away
+                # polygons - recorded finding sweepline-large-coordinates
+                t = t * 2.0 ** int(rng.integers(16, 27))
+                kind += "/far"
             Vp, Qp = V3 @ M.T * s + t, Q3 @ M.T * s + t
         else:
             Vp, Qp = V3, (Q3 if mode == "xy3" else pts)
         if np.linalg.norm(np.cross(Vp[2] - Vp[1], Vp[0] - Vp[1])) == 0:
             continue
-        st, poly = C.excname(coxeter.shapes.Polygon, Vp)
+        st, poly = C.excname(coxeter.shapes.ConvexPolygon if kind.endswith("/far") else coxeter.shapes.Polygon, Vp)
         if st != "ok":
             chk.violation("constructor-raised", dict(vertices=Vp.tolist(), error=st))
             continue
